@@ -74,10 +74,18 @@ func init() {
 		}
 		gNil := ifWith(cd, "forward==nil")
 		gEmpty := ifWith(cd, `forward.Host==""`, `forward.Scheme==""`, "||")
-		dialOk := ifWith(cd, "err==nil")
+		// the dial part is evaluated path-sensitively (x_c16_direct.go), not matched as text: returned value / PipeData ran
+		dirRet := func(dialFails, pipeFails bool) string {
+			e := &dirEval{dialFails: dialFails, pipeFails: pipeFails, isNil: map[string]bool{}}
+			r, done := e.block(cd.Body.List)
+			if !done || e.unknown != "" {
+				r = "?"
+			}
+			return fmt.Sprintf("%s/%v", r, e.piped)
+		}
 		guard := gNil != nil && bodyHas(gNil.Body, "returnfalse") && gEmpty != nil && bodyHas(gEmpty.Body, "returnfalse") &&
 			strings.Contains(flat(cd), "net.Dial(forward.Scheme,forward.Host)") &&
-			dialOk != nil && bodyHas(dialOk.Body, "returntrue") && strings.HasSuffix(flat(cd.Body), "returnfalse}")
+			dirRet(true, false) == "false/false" && dirRet(false, false) == "true/true" && dirRet(false, true) == "true/true"
 		fact("listener.go ConnectDirectly: no forward address, or one with an empty host or scheme, or a failed dial ⇒ false; a successful dial ⇒ pipe and true",
 			"c16DirectGuard", guard)
 		first := false
